@@ -224,8 +224,8 @@ plan("C14", "exploration",
 REAL_W5 = ("REAL: services/api/grpc (gRPC server, TLS 1.3 with RequireAndVerifyClientCert, request-id/source-ip/client-info interceptors), all five registered services' handlers and "
            "services behind them on a loopback port; the repository's own test certificates and authority; clients built with crypto/tls. No bubble, no scheduler: calls are sequential. STUB: DKG sender.")
 q, t = tiers(50, 120, 50, 300)
-q["layers"] = all_matrix_layers(156, 120, mw=14) + [dict(runs=10, budget_s=120, params="mode=conc"), dict(runs=12, budget_s=120, params="mode=resume"), dict(runs=40, budget_s=120, params="mode=portreuse")]
-t["layers"] = all_matrix_layers(156, 300, mw=14) + [dict(runs=200, budget_s=300, params="mode=conc"), dict(runs=200, budget_s=300, params="mode=resume"), dict(runs=2000, budget_s=300, params="mode=portreuse")]
+q["layers"] = all_matrix_layers(168, 120, mw=14) + [dict(runs=10, budget_s=120, params="mode=conc"), dict(runs=12, budget_s=120, params="mode=resume"), dict(runs=40, budget_s=120, params="mode=portreuse")]
+t["layers"] = all_matrix_layers(168, 300, mw=14) + [dict(runs=200, budget_s=300, params="mode=conc"), dict(runs=200, budget_s=300, params="mode=resume"), dict(runs=2000, budget_s=300, params="mode=portreuse")]
 q["layers"] = native(q["layers"]) + q["layers"] + native([dict(runs=8, budget_s=120, params="mode=daemon")])
 t["layers"] = native(t["layers"]) + t["layers"] + native([dict(runs=120, budget_s=300, params="mode=daemon")])
 q["exhaustive"] = t["exhaustive"] = True
@@ -234,7 +234,7 @@ q["require_probes"] = t["require_probes"] = ["untrusted_calls", "permitted_calls
 plan("C19", "other",
      "complete table: server configuration {authority configured, no authority configured, authority configured and the server certificate file also carrying a foreign authority's certificate} x every method of the five registered gRPC services (16) x caller credential {plaintext, TLS without "
      "client certificate, self-signed with a permitted name, other authority with a permitted name, authority from the host trust store with a permitted name, certificate chained through a "
-     "non-CA certificate of the configured authority, valid unpermitted client, valid client-test01, valid client-test02, valid peer certificate, a valid certificate followed in the chain by a self-made certificate bearing a permitted name (two variants), a self-made certificate with a permitted name followed by a genuine client's public certificate, a self-made certificate that claims to be an authority and bears a permitted name (alone, followed by a genuine client's public certificate, followed by the configured authority's certificate), six certificates really issued by the configured authority (its key is among the repository's test resources) whose subject is one client while their DNS alternative names, organisation fields, e-mail or URI names mention another, or whose subject is empty} x target wallet {Wallet 1, Wallet 2} = 2112 cases.",
+     "non-CA certificate of the configured authority, valid unpermitted client, valid client-test01, valid client-test02, valid peer certificate, a valid certificate followed in the chain by a self-made certificate bearing a permitted name (two variants), a self-made certificate with a permitted name followed by a genuine client's public certificate, a self-made certificate that claims to be an authority and bears a permitted name (alone, followed by a genuine client's public certificate, followed by the configured authority's certificate), six certificates really issued by the configured authority (its key is among the repository's test resources) whose subject is one client while their DNS alternative names, organisation fields, e-mail or URI names mention another, or whose subject is empty} (also: a permitted client's name in upper case as subject; a certificate without a subject name followed by a self-made one bearing a permitted name) x target wallet {Wallet 1, Wallet 2} = 2304 cases.",
      q, t, real_vs_stub=REAL_W5,
      explanation="No scheduler and no fault sequence applies to this property; the check is an exhaustive table over a live in-process daemon edge (real gRPC, TLS, interceptors, handlers, services) "
                  "attacked by hostile and legitimate clients. Callers without a certificate from the configured authority must obtain no response message at all and change no state (with no "
